@@ -30,6 +30,9 @@ def mask(w):
     return (1 << w) - 1
 
 
+_BVV = {}
+
+
 class Sc:
     """scalar: integer of width w (signed flag s) or bool (w == 0)."""
     __slots__ = ('v', 'w', 's')
@@ -50,7 +53,15 @@ class Sc:
         v = self.v
         if self.w == 0:
             return z3.BoolVal(v) if isinstance(v, bool) else v
-        return z3.BitVecVal(v, self.w) if isinstance(v, int) else v
+        if isinstance(v, int):
+            k = (v, self.w)
+            r = _BVV.get(k)
+            if r is None:
+                r = z3.BitVecVal(v, self.w)
+                if len(_BVV) < 100000:
+                    _BVV[k] = r
+            return r
+        return v
 
     def sval(self):
         """concrete value interpreted with signedness"""
